@@ -79,3 +79,5 @@ LEVEL_TEXT = ('Proof: 24 Coq theorems over the Gallina model of Point/Size/Recta
               'and the real methods on the same inputs (exhaustive grid pairs + random up to 2^20) on every run.')
 LEVEL_NOTE = ('Trusted: Coq kernel, extraction (ExtrOcamlBasic), the OCaml/Rust drivers; the hand-written model is validated by '
               'differential testing, not proved equal to the Rust code; arithmetic is unbounded Z, theorems carry the range +-2^29.')
+
+CLAIMED = True
